@@ -1,111 +1,1421 @@
-//! probe (temporary)
-use std::time::Instant;
+//! C18 — a committed pool migration advances safely and survives persistence.
+//!
+//! An ONLINE CHECKER OF A TRACE SPECIFICATION over the engine's public API.
+//! The harness is the author of the world: a simulated chain (mempool,
+//! inclusion, reorgs, foreign spends), a wallet that scans it with a lag and
+//! estimates the tip, a consumer that acts on the steps it is handed (or
+//! crashes half-way), and a scripted store whose satisfiability / inclusion
+//! answers come from that simulation (optionally with adversarial flips) while
+//! its persistence goes to the REAL stores (memory + SQLite). After every
+//! event the specification in `model.rs` is evaluated on a plain snapshot of
+//! the state, and the state is saved to and re-loaded from both stores.
 
-use rand_chacha::ChaCha8Rng;
-use rand_core::SeedableRng;
-use zcash_client_backend::data_api::testing::TestBuilder;
-use zcash_client_backend::data_api::{Account as _, WalletRead, WalletWrite};
-use zcash_client_sqlite::pool_migration::orchard_ironwood::PoolMigrations;
-use zcash_client_sqlite::testing::{BlockCache, db::TestDbFactory};
-use zcash_client_sqlite::util::SystemClock;
+mod fixtures;
+mod model;
+mod sqlenv;
+mod world;
+
+use std::collections::BTreeMap;
+use std::rc::Rc;
+
+use vh_common::rand::Rng;
+use vh_common::rand::seq::SliceRandom;
+use vh_common::rand_chacha::ChaCha20Rng;
+use vh_common::{Args, Reporter, guard, json, panic_class};
 use zcash_pool_migration::engine::{
-    PoolMigrationRead, PoolMigrationWrite, commit_preparation_with_funding, plan_migration,
+    CommitError, MigrationPlan, MigrationState, MigrationStatus, MigrationTxKind, MigrationTxState, PoolMigrationRead,
+    PoolMigrationWrite, ProveOutcome, ProvedTransaction, commit_preparation, prove_preparation, prove_transfer,
+    rebuild_expired_transfer,
 };
-use zcash_pool_migration::satisfiability::ReplanThreshold;
-use zcash_pool_migration::scheduling::{AnchorBucketInterval, SchedulingParams};
-use zcash_pool_migration_memory::{CommitMock, TARGET_HEIGHT, regtest_network, spending_key};
-use zcash_primitives::block::BlockHash;
-use zcash_protocol::consensus::BlockHeight;
-use zcash_protocol::value::COIN;
+use zcash_pool_migration::satisfiability::{
+    AdvanceConfig, DuenessTargets, ReorgSettleDepth, ReplanThreshold, advance_migration,
+};
+use zcash_pool_migration::state::AdvanceStep;
+use zcash_pool_migration::testing::{arb_migration_state, arb_preparation_plan};
+use zcash_pool_migration_memory::{MockBackend, TARGET_HEIGHT, regtest_network, spending_key};
 
-fn main() {
-    let t0 = Instant::now();
-    let mut st = TestBuilder::new()
-        .with_data_store_factory(TestDbFactory::default())
-        .with_block_cache(BlockCache::new())
-        .with_account_from_sapling_activation(BlockHash([0; 32]))
-        .build();
-    println!("build {:?}", t0.elapsed());
-    let account = st.test_account().unwrap().account().id();
-    let t0 = Instant::now();
-    let h = st.generate_and_scan_empty_blocks(60);
-    println!("60 empty blocks {:?} -> {h:?}", t0.elapsed());
-    let tip = st.wallet().chain_height().unwrap().unwrap();
-    for d in [1u32, 3, 7, 20, 50] {
-        let t0 = Instant::now();
-        let got = st.wallet_mut().truncate_to_height(tip - d);
-        println!("truncate to tip-{d}: {:?} in {:?}", got.map(|g| u32::from(tip) - u32::from(g)), t0.elapsed());
-        // regrow
-        let cur = st.wallet().chain_height().unwrap().unwrap();
-        st.truncate_to_height(cur);
-        let t0 = Instant::now();
-        st.generate_and_scan_empty_blocks((u32::from(tip) - u32::from(cur)) as usize);
-        println!("  regrow {:?} tip {:?}", t0.elapsed(), st.wallet().chain_height().unwrap());
+use fixtures::{Fixture, GuardProbe, MockProver, RealCtx, RebuildBackend, bh, mid};
+use model::{Ans, Ev, Snap, Viol, snap};
+use sqlenv::SqlEnv;
+use world::{MemTx, ScriptedStore, World};
+
+const SQL_DEPTH: u32 = 60;
+
+struct Shared {
+    r: Reporter,
+    plan: MigrationPlan,
+    guard_rng: ChaCha20Rng,
+}
+
+impl Shared {
+    fn viol(&mut self, v: Viol, replay: &serde_json::Value) {
+        self.r.violation(&v.class, v.detail, replay.clone());
+    }
+}
+
+struct Trace<'a> {
+    sh: &'a mut Shared,
+    rng: ChaCha20Rng,
+    state: MigrationState,
+    store: ScriptedStore<'a>,
+    real: Option<Rc<RealCtx>>,
+    events: u32,
+    label: &'static str,
+    trace_id: u64,
+    cfg: AdvanceConfig,
+    log: Vec<String>,
+    dead_end: bool,
+    sql_broken: bool,
+}
+
+fn state_digest(s: &Snap) -> serde_json::Value {
+    json!({
+        "status": model::status_name(s.status),
+        "txs": s.txs.iter().map(|t| json!({
+            "id": t.id, "transfer": t.transfer, "deps": t.deps, "sched": t.sched, "expiry": t.expiry,
+            "boundary": t.boundary, "state": model::RANK_NAMES[t.rank as usize], "mined_at": t.mined_at,
+            "mark": t.mark, "report": t.report,
+        })).collect::<Vec<_>>(),
+    })
+}
+
+impl<'a> Trace<'a> {
+    fn replay(&self, extra: serde_json::Value) -> serde_json::Value {
+        let n = self.log.len();
+        json!({
+            "trace": self.trace_id, "fixture": self.label, "event_index": self.events,
+            "tip": self.store.world.tip, "scanned": self.store.world.scanned,
+            "recent_events": self.log[n.saturating_sub(14)..].to_vec(),
+            "state": state_digest(&snap(&self.state)),
+            "at": extra,
+        })
     }
 
-    for (seed, vals, interval) in [
-        (1u64, vec![78 * COIN], 144u32),
-        (2, vec![400 * COIN], 144),
-        (3, vec![12 * COIN, 7 * COIN, 3 * COIN], 16),
-        (4, vec![100 * COIN; 5], 8),
-    ] {
-        let t0 = Instant::now();
-        let sp = SchedulingParams::new_with_default_distributions(AnchorBucketInterval::custom(
-            std::num::NonZeroU32::new(interval).unwrap(),
-        ));
-        let mut backend = CommitMock::new(seed, &vals).with_scheduling_params(sp);
-        let mut rng = ChaCha8Rng::seed_from_u64(seed);
-        let plan = match plan_migration(&regtest_network(true), &backend, &mut rng) {
-            Ok(p) => p,
-            Err(e) => {
-                println!("plan failed: {e:?}");
-                continue;
-            }
-        };
-        let r = commit_preparation_with_funding(
-            &regtest_network(true),
-            BlockHeight::from_u32(TARGET_HEIGHT),
-            &mut backend,
-            &spending_key(seed),
-            &plan,
-            &mut rng,
-            ReplanThreshold::DEFAULT,
-        );
-        match r {
-            Ok((state, funding)) => {
-                println!(
-                    "commit seed {seed} in {:?}: {} txs, {} funding; status {:?}",
-                    t0.elapsed(),
-                    state.transactions().len(),
-                    funding.len(),
-                    state.status()
-                );
-                for t in state.transactions() {
-                    println!(
-                        "   {:?} {:?} deps {:?} sched {:?} exp {:?} bnd {:?} pczt {}B nfs {}",
-                        t.id(),
-                        t.kind(),
-                        t.depends_on(),
-                        t.scheduled_height(),
-                        t.expiry_height(),
-                        t.anchor_boundary(),
-                        t.pczt().len(),
-                        t.spend_nullifiers().len()
-                    );
-                }
-                let t0 = Instant::now();
-                let mut store = PoolMigrations::for_account(
-                    *st.network(),
-                    SystemClock,
-                    st.wallet_mut().conn_mut(),
-                    account,
-                )
-                .unwrap();
-                store.replace_migration(&state).unwrap();
-                let back = store.get_migration().unwrap();
-                println!("   sqlite roundtrip eq={} in {:?}", back.as_ref() == Some(&state), t0.elapsed());
-            }
-            Err(e) => println!("commit failed: {e:?}"),
+    fn report(&mut self, viols: Vec<Viol>, extra: serde_json::Value) {
+        if viols.is_empty() {
+            return;
+        }
+        let rp = self.replay(extra);
+        for v in viols {
+            self.sh.viol(v, &rp);
         }
     }
+
+    /// Saves the state through the scripted store's real back ends (only if it changed since the
+    /// last write: a consumer persists after a mutation) and loads it back from BOTH stores.
+    fn persist_and_verify(&mut self, what: &str) {
+        if self.store.last_written.as_ref() != Some(&self.state) {
+            self.maybe_faulted_write();
+            if let Err(e) = self.store.replace_migration(&self.state) {
+                self.sql_error("replace_migration", e);
+            }
+        }
+        let expect = (!model::terminal(self.state.status())).then(|| self.state.clone());
+        let mut viols = vec![];
+        // memory store
+        let got = self.store.mem.get_migration().unwrap();
+        self.sh.r.count("persist_roundtrips_memory", 1);
+        if got != expect {
+            let field = match (&got, &expect) {
+                (Some(a), Some(b)) => model::first_difference(a, b),
+                (None, Some(_)) => "missing".into(),
+                (Some(_), None) => "terminal-still-pending".into(),
+                _ => unreachable!(),
+            };
+            viols.push(Viol {
+                class: format!("C18:persist:memory:roundtrip-mismatch:{field}"),
+                detail: format!("after {what}: get_migration() differs from the state that was saved ({field})"),
+            });
+        }
+        // SQLite store
+        if !self.sql_broken && self.store.sql.is_some() {
+            let sql = self.store.sql.as_ref().unwrap();
+            self.sh.r.count("persist_roundtrips_sqlite", 1);
+            match sql.get() {
+                Err(e) => {
+                    let e = e.clone();
+                    self.sql_error("get_migration", e);
+                }
+                Ok(got) => {
+                    if got != expect {
+                        let field = match (&got, &expect) {
+                            (Some(a), Some(b)) => model::first_difference(a, b),
+                            (None, Some(_)) => "missing".into(),
+                            (Some(_), None) => "terminal-still-pending".into(),
+                            _ => unreachable!(),
+                        };
+                        viols.push(Viol {
+                            class: format!("C18:persist:sqlite:roundtrip-mismatch:{field}"),
+                            detail: format!("after {what}: get_migration() differs from the state that was saved ({field})"),
+                        });
+                    }
+                }
+            }
+            if expect.is_none() && !self.sql_broken {
+                // a terminal migration is history: still readable, unchanged
+                let sql = self.store.sql.as_ref().unwrap();
+                self.sh.r.count("persist_terminal_history_reads", 1);
+                match sql.latest() {
+                    Ok(Some(l)) if l == self.state => {}
+                    Ok(other) => {
+                        let field = other
+                            .as_ref()
+                            .map(|l| model::first_difference(l, &self.state))
+                            .unwrap_or_else(|| "missing".into());
+                        viols.push(Viol {
+                            class: format!("C18:persist:sqlite:history-mismatch:{field}"),
+                            detail: format!("after {what}: latest_migration() differs from the terminal state that was saved ({field})"),
+                        });
+                    }
+                    Err(e) => self.sql_error("latest_migration", e),
+                }
+            }
+            if !self.sql_broken {
+                let sql = self.store.sql.as_ref().unwrap();
+                match sql.row_counts() {
+                    Ok((pending, all)) => {
+                        self.sh.r.set_max("max_history_rows", all);
+                        if pending > 1 {
+                            viols.push(Viol {
+                                class: "C18:persist:sqlite:two-non-terminal-migrations".into(),
+                                detail: format!("{pending} non-terminal migration rows for one account after {what}"),
+                            });
+                        }
+                    }
+                    Err(e) => self.sql_error("row_counts", e),
+                }
+            }
+        }
+        self.report(viols, json!({"persist_after": what}));
+    }
+
+    /// Crash point inside the store's write: an injected failure half-way through the row
+    /// rewrite must leave the previously saved migration readable and unchanged.
+    fn maybe_faulted_write(&mut self) {
+        if self.sql_broken || self.store.sql.is_none() || !self.rng.gen_bool(0.04) {
+            return;
+        }
+        let Some(old) = self.store.last_written.clone() else { return };
+        if model::terminal(old.status()) || model::terminal(self.state.status()) || self.state.transactions().is_empty() {
+            return;
+        }
+        let k = u32::from(self.state.transactions().choose(&mut self.rng).unwrap().id());
+        let new = self.state.clone();
+        let sql = self.store.sql.as_mut().unwrap();
+        let res = sql.faulted_replace(&new, k).and_then(|fired| sql.get().map(|g| (fired, g)));
+        match res {
+            Err(e) => self.sql_error("faulted replace_migration", e),
+            Ok((None, _)) => {
+                self.sh.r.count("write_fault_did_not_fire", 1);
+                self.store.last_written = None;
+            }
+            Ok((Some(_), got)) => {
+                self.sh.r.count("write_faults_injected_mid_transaction", 1);
+                if got.as_ref() != Some(&old) {
+                    let f = got.as_ref().map(|g| model::first_difference(g, &old)).unwrap_or("missing".into());
+                    let v = Viol {
+                        class: format!("C18:persist:sqlite:failed-write-not-atomic:{f}"),
+                        detail: format!("replace_migration failed half-way (injected) and the stored migration changed ({f})"),
+                    };
+                    self.report(vec![v], json!({"fault_on_transfer": k}));
+                }
+            }
+        }
+    }
+
+    fn sql_error(&mut self, op: &str, e: String) {
+        // a store error on a state the engine itself produced: the save/load cycle failed
+        let cls: String = e.chars().filter(|c| !c.is_ascii_digit()).take(90).collect();
+        let v = Viol {
+            class: format!("C18:persist:sqlite:error:{op}:{cls}"),
+            detail: format!("{op} failed: {e}"),
+        };
+        self.report(vec![v], json!({"op": op}));
+        self.sql_broken = true;
+        self.dead_end = true;
+    }
+
+    /// Applies one consumer / environment mutation and runs the lifecycle part of the specification.
+    fn apply(&mut self, ev: Ev, f: impl FnOnce(&mut Trace<'a>)) {
+        let before = snap(&self.state);
+        let name = ev.name();
+        let res = guard(|| f(self));
+        let after = snap(&self.state);
+        self.events += 1;
+        self.log.push(format!("{ev:?}"));
+        let mut viols = vec![];
+        if let Err(p) = res {
+            viols.push(Viol {
+                class: format!("C18:panic:{name}:{}", panic_class(&p)),
+                detail: format!("{name} panicked: {p}"),
+            });
+            self.dead_end = true;
+        }
+        let st = model::check_transition(&before, &after, &ev, &mut viols);
+        model::check_invariants(&after, name, &mut viols);
+        self.sh.r.count(&format!("event_{name}"), 1);
+        if st.on_terminal {
+            self.sh.r.count("events_on_terminal_migration", 1);
+            if model::policy_terminal(before.status) {
+                self.sh.r.count("events_on_policy_terminal_migration", 1);
+            }
+        }
+        if let Ev::Truncate(_) = ev {
+            self.sh.r.count("rollback_unmined_transactions", st.unmined as u64);
+            self.sh.r.count("rollback_kept_mined_transactions", st.kept_mined as u64);
+            self.sh.r.count("rollback_mined_exactly_at_height_kept", st.kept_at_exact_height as u64);
+            if st.complete_reverted {
+                self.sh.r.count("complete_reverted_by_rollback", 1);
+            }
+        }
+        if after.status == MigrationStatus::Complete && before.status != MigrationStatus::Complete {
+            self.sh.r.count("reached_complete", 1);
+        }
+        let ranks: Vec<u8> = after.txs.iter().map(|t| t.rank).collect();
+        self.sh.r.case(&(name, model::status_name(before.status), model::status_name(after.status), ranks), true);
+        self.report(viols, json!({"event": format!("{ev:?}"), "before": state_digest(&before)}));
+        self.store.world.sync_ids(&after);
+    }
+
+    fn pick_estimate(&mut self) -> u32 {
+        let w = &self.store.world;
+        let (tip, scanned) = (w.tip, w.scanned);
+        match self.rng.gen_range(0..100) {
+            0..=39 => tip + 1,
+            40..=54 => scanned + 1,
+            55..=69 => (tip + 1).saturating_add_signed(self.rng.gen_range(-3..=3)),
+            70..=89 => {
+                let hs = self.interesting_targets(scanned + 1);
+                hs.choose(&mut self.rng).copied().unwrap_or(tip + 1)
+            }
+            _ => tip + self.rng.gen_range(5..5000),
+        }
+    }
+
+    /// Target heights (tip + 1) at which some guard of the specification flips.
+    fn interesting_targets(&self, above: u32) -> Vec<u32> {
+        let tol = fixtures::overdue_tolerance(self.state.anchor_bucket_interval().block_count().get());
+        let mut v = vec![];
+        for t in self.state.transactions() {
+            if matches!(t.state(), MigrationTxState::Mined { .. }) {
+                continue;
+            }
+            let s = u32::from(t.scheduled_height());
+            let e = u32::from(t.expiry_height());
+            v.extend([s.saturating_sub(1), s, s + 1, s + tol, s + tol + 1, s + tol + 2]);
+            if e != 0 {
+                v.extend([e.saturating_sub(1), e, e + 1, e + 2]);
+            }
+            if let Some(b) = t.anchor_boundary() {
+                let b = u32::from(b);
+                v.extend([b + 10, b + 11, b + 12]);
+            }
+        }
+        v.retain(|h| *h >= above);
+        v.sort();
+        v.dedup();
+        v.truncate(8);
+        v
+    }
+
+    fn advance(&mut self) -> Option<AdvanceStep> {
+        let scanned_t = self.store.world.scanned + 1;
+        let est = self.pick_estimate();
+        let targets = DuenessTargets::new(bh(scanned_t), bh(est));
+        let eff = u32::from(targets.effective());
+        let before = snap(&self.state);
+        self.store.world.queries.borrow_mut().clear();
+        let writes0 = self.store.writes;
+        let mut rng = self.rng.clone();
+        let cfg = self.cfg;
+        let (store, state) = (&mut self.store, &mut self.state);
+        let res = guard(|| advance_migration(store, state, targets, &cfg, &mut rng));
+        self.rng = rng;
+        self.events += 1;
+        self.sh.r.count("advance_calls", 1);
+        let after = snap(&self.state);
+        self.log.push(format!("advance(scanned {scanned_t}, served {eff})"));
+        let mut viols = vec![];
+        let adv = match res {
+            Err(p) => {
+                viols.push(Viol {
+                    class: format!("C18:panic:advance_migration:{}", panic_class(&p)),
+                    detail: format!("advance_migration panicked: {p}"),
+                });
+                self.report(viols, json!({"targets": [scanned_t, eff], "before": state_digest(&before)}));
+                self.dead_end = true;
+                return None;
+            }
+            Ok(Err(e)) => {
+                self.sql_error("advance_migration", e);
+                return None;
+            }
+            Ok(Ok(a)) => a,
+        };
+        let step = adv.step().clone();
+        let n = self.log.len();
+        self.log[n - 1] = format!("advance(scanned {scanned_t}, served {eff}) -> {step:?}");
+
+        // answers given during the call
+        let queries = self.store.world.queries.borrow().clone();
+        let mut answers: BTreeMap<u32, Ans> = BTreeMap::new();
+        let mut counts: BTreeMap<u32, u32> = BTreeMap::new();
+        for (id, a, flipped) in &queries {
+            answers.insert(*id, *a);
+            *counts.entry(*id).or_insert(0) += 1;
+            if *flipped {
+                self.sh.r.count("store_answers_adversarial", 1);
+            }
+            self.sh.r.count(
+                match a {
+                    Ans::Satisfiable => "store_answers_satisfiable",
+                    Ans::NotYet => "store_answers_not_yet",
+                    Ans::UnsatMarking => "store_answers_unsatisfiable_marking",
+                    Ans::UnsatExpired => "store_answers_unsatisfiable_expired",
+                },
+                1,
+            );
+        }
+        // a NotYet answer only sets a CANDIDATE aside: the first question put to an in-flight row
+        // (the sweep) or to a reported row (the adjudication) is not a candidate check
+        let mut cand_answers = answers.clone();
+        for (id, a) in &answers {
+            if *a == Ans::NotYet {
+                let b = before.tx(*id);
+                let first_is_not_candidate = b.map(|t| t.rank == 3 || t.report.is_some()).unwrap_or(false);
+                if first_is_not_candidate && counts[id] < 2 {
+                    cand_answers.remove(id);
+                }
+            }
+        }
+
+        let tst = model::check_transition(&before, &after, &Ev::Advance, &mut viols);
+        model::check_invariants(&after, "advance_migration", &mut viols);
+        let sst = model::check_step(&after, &step, scanned_t, eff, &cand_answers, &mut viols);
+
+        // the engine owns the persistence of what it determined
+        if before != after || self.store.writes != writes0 {
+            self.sh.r.count("advance_calls_that_changed_state", 1);
+        }
+        if self.store.last_written.as_ref() != Some(&self.state) {
+            viols.push(Viol {
+                class: "C18:persist:engine:determination-not-written-back".into(),
+                detail: format!(
+                    "advance_migration returned {} with a state the store was not given (first difference {})",
+                    model::step_name(&step),
+                    self.store
+                        .last_written
+                        .as_ref()
+                        .map(|l| model::first_difference(l, &self.state))
+                        .unwrap_or_default()
+                ),
+            });
+        }
+
+        // counters
+        let r = &mut self.sh.r;
+        r.count(&format!("step_{}", model::step_name(&step)), 1);
+        if tst.on_terminal {
+            r.count("events_on_terminal_migration", 1);
+            if model::policy_terminal(before.status) {
+                r.count("events_on_policy_terminal_migration", 1);
+            }
+        }
+        if after.status == MigrationStatus::Complete && before.status != MigrationStatus::Complete {
+            r.count("reached_complete", 1);
+        }
+        let promoted_unrecorded = before
+            .txs
+            .iter()
+            .zip(after.txs.iter())
+            .filter(|(b, a)| b.rank == 2 && a.rank == 4)
+            .count() as u64;
+        r.count("sweep_promoted_unrecorded_broadcast", promoted_unrecorded);
+        let mined_by_sweep = before
+            .txs
+            .iter()
+            .zip(after.txs.iter())
+            .filter(|(b, a)| b.rank == 3 && a.rank == 4)
+            .count() as u64;
+        r.count("sweep_promoted_mined", mined_by_sweep);
+        let marks_new = before
+            .txs
+            .iter()
+            .zip(after.txs.iter())
+            .filter(|(b, a)| b.mark.is_none() && a.mark.is_some())
+            .count() as u64;
+        r.count("marks_recorded", marks_new);
+        let adjudicated = before
+            .txs
+            .iter()
+            .zip(after.txs.iter())
+            .filter(|(b, a)| b.report.is_some() && a.report.is_none())
+            .count() as u64;
+        r.count("failure_reports_adjudicated", adjudicated);
+        if before.txs.iter().zip(after.txs.iter()).any(|(b, a)| b.sched != a.sched) {
+            r.count("overdue_shifts", 1);
+        }
+        if matches!(step, AdvanceStep::Broadcast { .. }) {
+            r.count("broadcast_offers_checked", 1);
+            if sst.due_exact {
+                r.count("broadcast_offered_exactly_when_due", 1);
+            }
+            if sst.expiry_exact {
+                r.count("broadcast_offered_at_last_valid_height", 1);
+            }
+        }
+        if matches!(step, AdvanceStep::Prove { .. } | AdvanceStep::Rebuild { .. } | AdvanceStep::Waiting) && sst.proved_rows > 0 {
+            r.count("priority_checks_with_proved_rows", 1);
+        }
+        r.count("withheld_doomed_window", sst.doomed_withheld as u64);
+        r.count("withheld_partially_mined_dependencies", sst.partial_deps_withheld as u64);
+        r.count("withheld_open_failure_report", sst.reported_withheld as u64);
+        r.count("withheld_not_yet_satisfiable", sst.notyet_withheld as u64);
+        if sst.all_dead {
+            r.count("stuck_checks_all_unmined_dead", 1);
+            r.count(&format!("all_dead_step_{}", model::step_name(&step)), 1);
+        }
+        let dead = after.dead_set(scanned_t);
+        let mut shape: Vec<(u8, bool, bool, bool, bool, bool)> = after
+            .txs
+            .iter()
+            .map(|t| (t.rank, t.transfer, dead.contains(&t.id), t.sched <= eff, t.report.is_some(), after.deps_all_mined(t)))
+            .collect();
+        shape.sort();
+        let nontrivial = !model::terminal(before.status) && after.txs.iter().any(|t| t.rank != 4);
+        r.case(&(model::step_name(&step), model::status_name(after.status), shape, eff > scanned_t), nontrivial);
+        if self.sh.r.counter(&format!("step_{}", model::step_name(&step))) == 1 {
+            let smp = json!({"targets": {"scanned": scanned_t, "served": eff}, "step": format!("{step:?}"), "next": format!("{:?}", adv.next()), "state": state_digest(&after)});
+            self.sh.r.sample(&format!("advance->{}", model::step_name(&step)), smp);
+        }
+        self.report(viols, json!({"targets": [scanned_t, eff], "step": format!("{step:?}"), "before": state_digest(&before)}));
+
+        // "at most one broadcast at a time": until the state records the broadcast, asking again
+        // (same targets, same store) must not release a DIFFERENT transaction
+        if let AdvanceStep::Broadcast { id } = &step
+            && self.rng.gen_bool(0.5)
+            && !self.dead_end
+        {
+            let id1 = *id;
+            let mut rng = self.rng.clone();
+            let (store, state) = (&mut self.store, &mut self.state);
+            let res = guard(|| advance_migration(store, state, targets, &cfg, &mut rng));
+            self.sh.r.count("repeat_calls_while_broadcast_outstanding", 1);
+            if let Ok(Ok(adv2)) = res {
+                match adv2.step() {
+                    AdvanceStep::Broadcast { id: id2 } if *id2 != id1 => {
+                        let v = Viol {
+                            class: "C18:broadcast:second-transaction-offered-while-first-outstanding".into(),
+                            detail: format!("Broadcast({id1:?}) was returned and not yet recorded; the same call again returned Broadcast({id2:?})"),
+                        };
+                        self.report(vec![v], json!({"targets": [scanned_t, eff]}));
+                    }
+                    s2 if *s2 != step => self.sh.r.count("repeat_call_step_differs", 1),
+                    _ => {}
+                }
+            }
+        }
+        self.persist_and_verify("advance_migration");
+        Some(step)
+    }
+
+    // ---------------------------------------------------------------- the consumer
+
+    fn do_prove(&mut self, id: u32) {
+        let Some(tx) = self.state.transactions().iter().find(|t| u32::from(t.id()) == id).cloned() else {
+            return;
+        };
+        if !matches!(tx.state(), MigrationTxState::Signed) {
+            self.sh.r.count("prove_named_non_signed", 1);
+            return;
+        }
+        let scanned = self.store.world.scanned;
+        if let Some(real) = self.real.clone() {
+            // the real prove functions with a prover that does no cryptography
+            let fail = self.rng.gen_bool(0.03).then(|| (tx.spend_nullifiers()[0], bh(scanned)));
+            let lock = self
+                .rng
+                .gen_bool(0.5)
+                .then(|| zcash_pool_migration::engine::MigrationLockOwner::from_bytes([id as u8; 32]));
+            let mut prover = MockProver {
+                interval: self.state.anchor_bucket_interval(),
+                fail,
+                lock,
+            };
+            let _ = &real;
+            let mut outcome = None;
+            self.apply(if fail.is_some() { Ev::ProveFailed(id) } else { Ev::StoreProved(id) }, |t| {
+                let mut rng = t.rng.clone();
+                let res = match tx.kind() {
+                    MigrationTxKind::Transfer { .. } => prove_transfer(
+                        &regtest_network(true),
+                        &mut prover,
+                        &mut t.state,
+                        mid(id),
+                        bh(scanned),
+                        &mut rng,
+                    ),
+                    MigrationTxKind::Preparation { .. } => prove_preparation(&mut prover, &mut t.state, mid(id), bh(scanned)),
+                };
+                t.rng = rng;
+                match res {
+                    Ok(ProveOutcome::Proved(pt)) => {
+                        outcome = Some("proved");
+                        if let Err(e) = t.store.store_proved_transaction(&mut t.state, pt) {
+                            t.sql_error("store_proved_transaction", e);
+                        }
+                    }
+                    Ok(ProveOutcome::NotYetProvable) => outcome = Some("not_yet_provable"),
+                    Ok(ProveOutcome::MarkedUnsatisfiable { .. }) => outcome = Some("marked_unsatisfiable"),
+                    Err(_) => outcome = Some("error"),
+                }
+            });
+            self.sh.r.count(&format!("real_prove_{}", outcome.unwrap_or("panic")), 1);
+        } else {
+            let n = self.rng.gen_range(1..48);
+            let bytes: Vec<u8> = (0..n).map(|_| self.rng.r#gen()).collect();
+            self.apply(Ev::StoreProved(id), |t| {
+                let pt = ProvedTransaction::from_parts(mid(id), bytes);
+                if let Err(e) = t.store.store_proved_transaction(&mut t.state, pt) {
+                    t.sql_error("store_proved_transaction", e);
+                }
+            });
+        }
+        self.persist_and_verify("store_proved_transaction");
+    }
+
+    fn do_broadcast(&mut self, id: u32) {
+        let Some(tx) = self.state.transactions().iter().find(|t| u32::from(t.id()) == id).cloned() else {
+            return;
+        };
+        let txid = *tx.txid().as_ref();
+        let mem = MemTx {
+            id,
+            expiry: u32::from(tx.expiry_height()),
+        };
+        let tip = self.store.world.tip;
+        let roll = self.rng.gen_range(0..100);
+        match roll {
+            0..=69 => {
+                self.store.world.mempool.insert(txid, mem);
+                self.store.world.bump();
+                let use_update = self.rng.gen_bool(0.4);
+                if use_update {
+                    self.check_update_transaction(id, MigrationTxState::Broadcast { txid: tx.txid() });
+                }
+                self.apply(Ev::MarkBroadcast(id), |t| t.state.mark_broadcast(mid(id)));
+                self.sh.r.count("broadcasts_recorded", 1);
+            }
+            70..=79 => {
+                // submitted, then the consumer died before recording it
+                self.store.world.mempool.insert(txid, mem);
+                self.store.world.bump();
+                self.sh.r.count("broadcasts_submitted_but_never_recorded", 1);
+                self.log.push(format!("broadcast {id} submitted, not recorded"));
+            }
+            80..=91 => {
+                self.apply(Ev::ReportFailure(id), |t| t.state.report_broadcast_failure(mid(id), bh(tip)));
+                self.sh.r.count("broadcast_failures_reported", 1);
+            }
+            92..=96 => {
+                // "rejected" (already known to the node), yet it is in the mempool and may mine
+                self.store.world.mempool.insert(txid, mem);
+                self.store.world.bump();
+                self.apply(Ev::ReportFailure(id), |t| t.state.report_broadcast_failure(mid(id), bh(tip)));
+                self.sh.r.count("broadcast_failures_reported", 1);
+                self.sh.r.count("broadcast_rejected_but_in_mempool", 1);
+            }
+            _ => {}
+        }
+        self.persist_and_verify("broadcast outcome");
+    }
+
+    /// `update_transaction` must change exactly one row's lifecycle state in both stores.
+    fn check_update_transaction(&mut self, id: u32, new: MigrationTxState) {
+        if model::terminal(self.state.status()) || self.sql_broken {
+            return;
+        }
+        let pre = self.state.clone();
+        if let Err(e) = self.store.update_transaction(mid(id), new) {
+            self.sql_error("update_transaction", e);
+            return;
+        }
+        self.sh.r.count("update_transaction_checks", 1);
+        let want = fixtures::map_tx(&pre, id, |p| p.state = new);
+        let mut viols = vec![];
+        let got = self.store.mem.get_migration().unwrap();
+        if got.as_ref() != Some(&want) {
+            let f = got.as_ref().map(|g| model::first_difference(g, &want)).unwrap_or("missing".into());
+            viols.push(Viol {
+                class: format!("C18:persist:memory:update_transaction-mismatch:{f}"),
+                detail: format!("update_transaction({id}, {new:?}) did not yield the same state with that one row changed ({f})"),
+            });
+        }
+        if let Some(sql) = self.store.sql.as_ref() {
+            match sql.get() {
+                Ok(got) => {
+                    if got.as_ref() != Some(&want) {
+                        let f = got.as_ref().map(|g| model::first_difference(g, &want)).unwrap_or("missing".into());
+                        viols.push(Viol {
+                            class: format!("C18:persist:sqlite:update_transaction-mismatch:{f}"),
+                            detail: format!("update_transaction({id}, {new:?}) did not yield the same state with that one row changed ({f})"),
+                        });
+                    }
+                }
+                Err(e) => self.sql_error("get_migration", e),
+            }
+        }
+        // the stores now hold `want`, not the last written state
+        self.store.last_written = None;
+        self.report(viols, json!({"update_transaction": id}));
+    }
+
+    fn do_rebuild(&mut self, id: u32) {
+        let scanned_t = self.store.world.scanned + 1;
+        if let Some(real) = self.real.clone() {
+            let mut ok = false;
+            self.apply(Ev::Rebuild(id, scanned_t), |t| {
+                let backend = RebuildBackend::new(&real, scanned_t - 1);
+                let mut rng = t.rng.clone();
+                let res = rebuild_expired_transfer(
+                    &regtest_network(true),
+                    &backend,
+                    &spending_key(real.seed),
+                    &mut t.state,
+                    mid(id),
+                    &mut rng,
+                );
+                t.rng = rng;
+                ok = res.is_ok();
+                if let Err(e) = res {
+                    t.log.push(format!("rebuild error {e:?}"));
+                }
+            });
+            self.sh.r.count(if ok { "real_rebuilds" } else { "real_rebuild_errors" }, 1);
+        } else {
+            let mut rng = self.rng.clone();
+            let next = fixtures::emulate_rebuild(&self.state, id, scanned_t, &mut rng);
+            self.rng = rng;
+            self.apply(Ev::Rebuild(id, scanned_t), |t| t.state = next);
+            self.sh.r.count("emulated_rebuilds", 1);
+        }
+        self.persist_and_verify("rebuild");
+    }
+
+    fn act_on(&mut self, step: &AdvanceStep) {
+        match step {
+            AdvanceStep::Prove { transactions } => {
+                let n = transactions.len();
+                let k = if self.rng.gen_bool(0.85) { n } else { self.rng.gen_range(0..=n) };
+                for pt in &transactions[..k] {
+                    if self.dead_end {
+                        break;
+                    }
+                    self.do_prove(u32::from(pt.id()));
+                }
+            }
+            AdvanceStep::Broadcast { id } => self.do_broadcast(u32::from(*id)),
+            AdvanceStep::Rebuild { id } => {
+                if self.rng.gen_bool(0.85) {
+                    self.do_rebuild(u32::from(*id));
+                }
+            }
+            AdvanceStep::Replan => {
+                if self.rng.gen_bool(0.5) {
+                    self.apply(Ev::Supersede, |t| t.state.mark_superseded());
+                    self.persist_and_verify("mark_superseded");
+                }
+            }
+            AdvanceStep::Reevaluate => {
+                // sync to (at least) the tip the rejecting node reported
+                let w = &mut self.store.world;
+                if self.rng.gen_bool(0.8) {
+                    w.scanned = w.tip;
+                    w.bump();
+                }
+            }
+            AdvanceStep::Waiting | AdvanceStep::Complete => {}
+        }
+    }
+
+    // ---------------------------------------------------------------- the environment
+
+    fn mine(&mut self, k: u32) {
+        for _ in 0..k {
+            let inc = self.store.world.mine_block(70);
+            self.sh.r.count("sim_transactions_mined", inc as u64);
+        }
+        self.sh.r.count("sim_blocks", k as u64);
+        self.sync_wallet();
+    }
+
+    fn sync_wallet(&mut self) {
+        let w = &mut self.store.world;
+        match self.rng.gen_range(0..10) {
+            0..=6 => w.scanned = w.tip,
+            7..=8 => w.scanned += self.rng.gen_range(0..=(w.tip - w.scanned)),
+            _ => {}
+        }
+        w.bump();
+    }
+
+    fn rollback(&mut self, to: u32) {
+        let w = &mut self.store.world;
+        if to >= w.tip || to == 0 {
+            return;
+        }
+        let scanned = w.scanned;
+        w.reorg_to(to);
+        self.sh.r.count("sim_reorgs", 1);
+        self.log.push(format!("reorg to {to}"));
+        if scanned <= to {
+            return;
+        }
+        // the wallet truncates — possibly lower than asked — and reports the height it achieved;
+        // the consumer passes THAT height to the migration
+        let extra = *[0u32, 0, 0, 1, 2].choose(&mut self.rng).unwrap();
+        let achieved = to.saturating_sub(extra).max(1);
+        self.store.world.scanned = achieved;
+        let depth = scanned - achieved;
+        let visited_by_wallet_walk = !model::policy_terminal(self.state.status());
+        let use_wallet = self.store.sql.is_some()
+            && !self.sql_broken
+            && depth <= SQL_DEPTH - 5
+            && visited_by_wallet_walk
+            && self.rng.gen_bool(if depth <= 6 { 0.6 } else { 0.25 });
+        let mut expected = self.state.clone();
+        expected.truncate_to_height(bh(achieved));
+        if use_wallet {
+            // The WALLET rolls its stored migrations back itself when it truncates. The wallet's
+            // chain lives at other heights than the simulation, so the chain-derived heights are
+            // translated by a constant on the way in and out (truncation only compares heights).
+            let res = self.wallet_driven_truncation(scanned, achieved, &expected);
+            if let Err(e) = res {
+                self.sql_error("wallet truncate_to_height", e);
+            }
+        }
+        self.apply(Ev::Truncate(achieved), |t| t.state.truncate_to_height(bh(achieved)));
+        self.sh.r.count("rollbacks_applied", 1);
+        // transactions back in flight keep their expiry in the simulated mempool
+        self.persist_and_verify("truncate_to_height");
+    }
+
+    fn wallet_driven_truncation(&mut self, scanned: u32, achieved: u32, expected: &MigrationState) -> Result<(), String> {
+        let depth = scanned - achieved;
+        let sql = self.store.sql.as_mut().unwrap();
+        let w_tip = sql.wallet_tip();
+        let delta = i64::from(w_tip) - i64::from(scanned);
+        let Some(translated) = fixtures::shift_chain_heights(&self.state, delta) else {
+            self.sh.r.count("wallet_truncation_skipped_untranslatable", 1);
+            return Ok(());
+        };
+        sql.wipe_account()?;
+        sql.replace(&translated)?;
+        let (_, got_h) = sql.wallet_truncate(depth)?;
+        let loaded = if model::terminal(expected.status()) {
+            sql.latest()?
+        } else {
+            sql.get()?
+        };
+        let other_ok = sql.get_for(sql.other_account)?;
+        sql.regrow();
+        sql.wipe_account()?;
+        self.store.last_written = None;
+        self.sh.r.count("wallet_driven_truncations", 1);
+        let mut viols = vec![];
+        if i64::from(got_h) - delta != i64::from(achieved) {
+            self.sh.r.count("wallet_truncated_lower_than_requested", 1);
+        }
+        let want = {
+            let mut e = self.state.clone();
+            e.truncate_to_height(bh((i64::from(got_h) - delta) as u32));
+            e
+        };
+        let back = loaded.as_ref().and_then(|l| fixtures::shift_chain_heights(l, -delta));
+        if back.as_ref() != Some(&want) {
+            let f = back.as_ref().map(|b| model::first_difference(b, &want)).unwrap_or("missing".into());
+            viols.push(Viol {
+                class: format!("C18:persist:sqlite:wallet-truncation-differs-from-truncate_to_height:{f}"),
+                detail: format!(
+                    "wallet truncated {depth} blocks (to sim height {achieved}); the stored migration read back differs from MigrationState::truncate_to_height in {f}"
+                ),
+            });
+        }
+        if other_ok.is_none() {
+            viols.push(Viol {
+                class: "C18:persist:sqlite:other-account-migration-lost".into(),
+                detail: "the second account's pending migration disappeared during a wallet truncation".into(),
+            });
+        }
+        self.report(viols, json!({"wallet_truncate_depth": depth}));
+        Ok(())
+    }
+
+    fn env_event(&mut self) {
+        let mut roll = self.rng.gen_range(0..100);
+        let w_tip = self.store.world.tip;
+        // abandoning the migration is rare
+        if (73..=75).contains(&roll) && self.rng.gen_bool(0.8) {
+            roll = 0;
+        }
+        match roll {
+            0..=37 => {
+                let k = match self.rng.gen_range(0..25) {
+                    0..=17 => self.rng.gen_range(1..=3),
+                    18..=23 => self.rng.gen_range(4..=40),
+                    _ => 0,
+                };
+                if k == 0 {
+                    let far = w_tip + self.rng.gen_range(100..60_000);
+                    self.mine(2);
+                    self.store.world.jump_to(far);
+                    self.sync_wallet();
+                    self.sh.r.count("sim_long_absences", 1);
+                } else {
+                    self.mine(k);
+                }
+            }
+            38..=52 => {
+                // go exactly to a height where a guard flips
+                let hs = self.interesting_targets(w_tip + 2);
+                if let Some(t) = hs.choose(&mut self.rng).copied() {
+                    let dist = t - 1 - w_tip;
+                    if dist <= 12 {
+                        self.mine(dist);
+                    } else {
+                        self.mine(2);
+                        self.store.world.jump_to(t - 1);
+                        self.sync_wallet();
+                    }
+                    self.sh.r.count("sim_jumps_to_guard_heights", 1);
+                } else {
+                    self.mine(1);
+                }
+            }
+            53..=60 => self.sync_wallet(),
+            61..=69 => {
+                // reorg: by depth, or exactly at / just below a height the state refers to
+                let mut cands: Vec<u32> = vec![];
+                for t in self.state.transactions() {
+                    if let MigrationTxState::Mined { height, .. } = t.state() {
+                        let h = u32::from(height);
+                        cands.extend([h, h.saturating_sub(1)]);
+                    }
+                    if let Some(h) = t.unsatisfiable_at() {
+                        cands.extend([u32::from(h), u32::from(h).saturating_sub(1)]);
+                    }
+                    if let Some(h) = t.broadcast_failure_at() {
+                        cands.extend([u32::from(h), u32::from(h).saturating_sub(1)]);
+                    }
+                }
+                cands.retain(|h| *h < w_tip && w_tip - *h <= 45 && *h > 0);
+                let to = if !cands.is_empty() && self.rng.gen_bool(0.6) {
+                    *cands.choose(&mut self.rng).unwrap()
+                } else {
+                    w_tip.saturating_sub(*[1u32, 1, 2, 3, 5, 8, 13, 30].choose(&mut self.rng).unwrap())
+                };
+                self.rollback(to);
+                if self.rng.gen_bool(0.7) {
+                    let k = self.rng.gen_range(1..=4);
+                    self.mine(k);
+                }
+            }
+            70..=72 => {
+                // a foreign spend of some pending transaction's inputs lands in the next block
+                let cands: Vec<u32> = self
+                    .state
+                    .transactions()
+                    .iter()
+                    .filter(|t| !matches!(t.state(), MigrationTxState::Mined { .. }) && !self.store.world.chain.contains_key(t.txid().as_ref()))
+                    .map(|t| u32::from(t.id()))
+                    .collect();
+                if let Some(id) = cands.choose(&mut self.rng) {
+                    self.store.world.foreign.insert(*id, w_tip + 1);
+                    self.sh.r.count("sim_foreign_spends", 1);
+                }
+                self.mine(1);
+            }
+            73..=74 => {
+                self.apply(Ev::Cancel, |t| t.state.mark_cancelled());
+                self.persist_and_verify("mark_cancelled");
+            }
+            75 => {
+                self.apply(Ev::Supersede, |t| t.state.mark_superseded());
+                self.persist_and_verify("mark_superseded");
+            }
+            76..=79 => {
+                // a failure report for an arbitrary row (a no-op unless it is Proved)
+                let n = self.state.transactions().len() as u32;
+                if n > 0 {
+                    let id = self.rng.gen_range(0..n);
+                    let tip = bh(w_tip + self.rng.gen_range(0..3));
+                    self.apply(Ev::ReportFailure(id), |t| t.state.report_broadcast_failure(mid(id), tip));
+                    self.persist_and_verify("report_broadcast_failure");
+                }
+            }
+            80..=83 => {
+                // a consumer that also polls for inclusion records it itself
+                let scanned = self.store.world.scanned;
+                let cands: Vec<(u32, u32)> = self
+                    .state
+                    .transactions()
+                    .iter()
+                    .filter_map(|t| match t.state() {
+                        MigrationTxState::Broadcast { txid } => self
+                            .store
+                            .world
+                            .chain
+                            .get(txid.as_ref())
+                            .copied()
+                            .filter(|h| *h <= scanned)
+                            .map(|h| (u32::from(t.id()), h)),
+                        _ => None,
+                    })
+                    .collect();
+                if let Some((id, h)) = cands.choose(&mut self.rng).copied() {
+                    if self.rng.gen_bool(0.5) {
+                        let txid = self.state.transactions().iter().find(|t| u32::from(t.id()) == id).unwrap().txid();
+                        self.check_update_transaction(id, MigrationTxState::Mined { txid, height: bh(h) });
+                    }
+                    self.apply(Ev::MarkMined(id), |t| t.state.mark_mined(mid(id), bh(h)));
+                    self.persist_and_verify("mark_mined");
+                } else {
+                    self.mine(1);
+                }
+            }
+            84..=91 => {
+                let cands: Vec<u32> = self
+                    .state
+                    .transactions()
+                    .iter()
+                    .filter(|t| matches!(t.state(), MigrationTxState::AwaitingSignature))
+                    .map(|t| u32::from(t.id()))
+                    .collect();
+                if let Some(id) = cands.choose(&mut self.rng).copied() {
+                    let bytes: Vec<u8> = (0..self.rng.gen_range(1..40)).map(|_| self.rng.r#gen()).collect();
+                    self.apply(Ev::ApplySignature(id), |t| {
+                        let _ = t.state.apply_signature(mid(id), bytes);
+                    });
+                    self.persist_and_verify("apply_signature");
+                } else {
+                    self.mine(1);
+                }
+            }
+            92..=95 => {
+                // crash and restart: the consumer continues from what the store holds
+                if !model::terminal(self.state.status()) {
+                    match self.store.get_migration() {
+                        Ok(Some(l)) => {
+                            self.sh.r.count("crash_restarts_from_store", 1);
+                            if self.store.primary_sql {
+                                self.sh.r.count("crash_restarts_from_sqlite", 1);
+                            }
+                            self.state = l;
+                        }
+                        Ok(None) => {}
+                        Err(e) => self.sql_error("get_migration", e),
+                    }
+                }
+            }
+            _ => {}
+        }
+    }
+
+    /// The commit guard, probed against both stores' `get_migration`.
+    fn probe_commit_guard(&mut self) {
+        let live = !model::terminal(self.state.status());
+        let status = model::status_name(self.state.status());
+        let mut viols = vec![];
+        let mut run = |name: &str, res: Result<MigrationState, CommitError<String>>, wrote: bool, viols: &mut Vec<Viol>| {
+            let refused = matches!(res, Err(CommitError::MigrationInProgress));
+            if live && !refused {
+                viols.push(Viol {
+                    class: format!("C18:guard:{name}:commit-admitted-over-live-migration:{status}"),
+                    detail: format!("commit_preparation got past the guard (result {:?}, wrote {wrote}) while the account's stored migration is {status}", res.as_ref().map(|_| "ok")),
+                });
+            }
+            if !live && refused {
+                viols.push(Viol {
+                    class: format!("C18:guard:{name}:commit-refused-over-terminal-migration:{status}"),
+                    detail: format!("commit_preparation refused although the stored migration is terminal ({status})"),
+                });
+            }
+        };
+        let sk = spending_key(1);
+        {
+            let mut probe = GuardProbe {
+                store: &self.store.mem,
+                wrote: false,
+            };
+            let res = commit_preparation(
+                &regtest_network(true),
+                bh(TARGET_HEIGHT),
+                &mut probe,
+                &sk,
+                &self.sh.plan,
+                &mut self.sh.guard_rng,
+                ReplanThreshold::DEFAULT,
+            );
+            let wrote = probe.wrote;
+            run("memory", res, wrote, &mut viols);
+        }
+        if let Some(sql) = self.store.sql.as_ref()
+            && !self.sql_broken
+        {
+            struct SqlRead<'b>(&'b SqlEnv);
+            impl PoolMigrationRead for SqlRead<'_> {
+                type Error = String;
+                fn get_migration(&self) -> Result<Option<MigrationState>, String> {
+                    self.0.get()
+                }
+                fn check_step_satisfiability(
+                    &self,
+                    _tx: &zcash_pool_migration::engine::MigrationTransaction,
+                    _s: ReorgSettleDepth,
+                ) -> Result<zcash_pool_migration::satisfiability::StepSatisfiability, String> {
+                    Err("unused".into())
+                }
+                fn mined_height(&self, _t: zcash_protocol::TxId) -> Result<Option<zcash_protocol::consensus::BlockHeight>, String> {
+                    Ok(None)
+                }
+            }
+            let rd = SqlRead(sql);
+            let mut probe = GuardProbe { store: &rd, wrote: false };
+            let res = commit_preparation(
+                &regtest_network(true),
+                bh(TARGET_HEIGHT),
+                &mut probe,
+                &sk,
+                &self.sh.plan,
+                &mut self.sh.guard_rng,
+                ReplanThreshold::DEFAULT,
+            );
+            let wrote = probe.wrote;
+            run("sqlite", res, wrote, &mut viols);
+        }
+        self.sh.r.count(if live { "guard_probes_over_live_migration" } else { "guard_probes_over_terminal_migration" }, 1);
+        self.sh.r.count(&format!("guard_probe_status_{status}"), 1);
+        self.report(viols, json!({"guard_probe": status}));
+    }
+
+    fn run(&mut self, max_events: u32) {
+        // the simulated chain agrees with the state the trace starts from
+        for t in self.state.transactions() {
+            let txid = *t.txid().as_ref();
+            match t.state() {
+                MigrationTxState::Mined { height, .. } => {
+                    self.store.world.chain.insert(txid, u32::from(height));
+                }
+                MigrationTxState::Broadcast { .. } => {
+                    self.store.world.mempool.insert(
+                        txid,
+                        MemTx {
+                            id: u32::from(t.id()),
+                            expiry: u32::from(t.expiry_height()),
+                        },
+                    );
+                }
+                _ => {}
+            }
+        }
+        let s0 = snap(&self.state);
+        self.store.world.sync_ids(&s0);
+        let mut v0 = vec![];
+        model::check_invariants(&s0, "initial", &mut v0);
+        if !v0.is_empty() {
+            self.sh.r.inconclusive("generator produced a state violating the invariants");
+            return;
+        }
+        self.persist_and_verify("initial commit");
+        self.probe_commit_guard();
+        let mut last_status = self.state.status();
+        // once terminal, a few more rounds are enough to see that nothing leaves the status
+        let mut terminal_rounds = self.rng.gen_range(3..10);
+        while self.events < max_events && !self.dead_end && self.sh.r.time_left() {
+            if model::terminal(self.state.status()) {
+                if terminal_rounds == 0 {
+                    break;
+                }
+                terminal_rounds -= 1;
+            }
+            let Some(step) = self.advance() else { break };
+            if self.dead_end {
+                break;
+            }
+            if self.rng.gen_bool(0.9) {
+                self.act_on(&step);
+            }
+            if self.dead_end {
+                break;
+            }
+            self.env_event();
+            if self.state.status() != last_status || self.rng.gen_bool(0.1) {
+                self.probe_commit_guard();
+                last_status = self.state.status();
+            }
+        }
+        // the database itself refuses a second non-terminal migration for the account
+        if let Some(sql) = self.store.sql.as_ref()
+            && !self.sql_broken
+            && !model::terminal(self.state.status())
+            && self.store.last_written.as_ref() == Some(&self.state)
+        {
+            match sql.raw_second_pending_refused() {
+                Ok(true) => self.sh.r.count("second_pending_row_refused_by_database", 1),
+                Ok(false) => {
+                    let v = Viol {
+                        class: "C18:persist:sqlite:second-non-terminal-row-admitted".into(),
+                        detail: "a second non-terminal migration row for the same account could be inserted".into(),
+                    };
+                    self.report(vec![v], json!({}));
+                }
+                Err(_) => self.sh.r.count("second_pending_row_probe_skipped", 1),
+            }
+        }
+        self.sh.r.count("traces", 1);
+        self.sh.r.count(&format!("traces_{}", self.label), 1);
+        self.sh.r.count("trace_events", self.events as u64);
+        if self.store.primary_sql {
+            self.sh.r.count("traces_reading_from_sqlite", 1);
+        }
+        if model::terminal(self.state.status()) {
+            self.sh.r.count(&format!("traces_ending_{}", model::status_name(self.state.status())), 1);
+        }
+    }
+}
+
+/// Round trip of states no scenario produces (`arb_migration_state`), through both stores.
+fn arb_roundtrips(sh: &mut Shared, sql: &mut SqlEnv, seed: u64, n: u32) {
+    let mut runner = vh_common::proptest_runner(seed, 1801);
+    let strat = arb_migration_state();
+    for i in 0..n {
+        if !sh.r.time_left() {
+            break;
+        }
+        let Some(state) = vh_common::draw(&mut runner, &strat) else {
+            sh.r.inconclusive("proptest rejected");
+            continue;
+        };
+        let expect = (!model::terminal(state.status())).then(|| state.clone());
+        let ranks: Vec<u8> = state.transactions().iter().map(|t| model::rank_of(&t.state())).collect();
+        sh.r.case(&("arb", model::status_name(state.status()), ranks), true);
+        sh.r.count("arbitrary_state_roundtrips", 1);
+        let replay = json!({"arb_state_index": i, "status": model::status_name(state.status()), "state": format!("{:?}", snap(&state))});
+        let mut mem = MockBackend::new(vec![], 0);
+        mem.replace_migration(&state).unwrap();
+        let got = mem.get_migration().unwrap();
+        if got != expect {
+            let f = match (&got, &expect) {
+                (Some(a), Some(b)) => model::first_difference(a, b),
+                _ => "presence".into(),
+            };
+            sh.r.violation(&format!("C18:persist:memory:roundtrip-mismatch:{f}"), "arbitrary state", replay.clone());
+        }
+        let res = (|| -> Result<(), String> {
+            sql.replace(&state)?;
+            let got = sql.get()?;
+            if got != expect {
+                let f = match (&got, &expect) {
+                    (Some(a), Some(b)) => model::first_difference(a, b),
+                    _ => "presence".into(),
+                };
+                sh.r.violation(&format!("C18:persist:sqlite:roundtrip-mismatch:{f}"), "arbitrary state", replay.clone());
+            }
+            if expect.is_none() {
+                let l = sql.latest()?;
+                if l.as_ref() != Some(&state) {
+                    let f = l.as_ref().map(|l| model::first_difference(l, &state)).unwrap_or("missing".into());
+                    sh.r.violation(&format!("C18:persist:sqlite:history-mismatch:{f}"), "arbitrary terminal state", replay.clone());
+                }
+            }
+            let (pending, _) = sql.row_counts()?;
+            if pending > 1 {
+                sh.r.violation("C18:persist:sqlite:two-non-terminal-migrations", "arbitrary states", replay.clone());
+            }
+            Ok(())
+        })();
+        if let Err(e) = res {
+            let cls: String = e.chars().filter(|c| !c.is_ascii_digit()).take(90).collect();
+            sh.r.violation(&format!("C18:persist:sqlite:error:arbitrary-state:{cls}"), e, replay);
+            let _ = sql.wipe_account();
+        }
+        if i % 16 == 15 {
+            let _ = sql.wipe_account();
+        }
+    }
+    let _ = sql.wipe_account();
+}
+
+/// Behaviours OUTSIDE the documented drive contract (so not judged by the specification), probed
+/// once and reported as notes for the maintainer.
+fn side_observations(sh: &mut Shared, sql: &mut SqlEnv, rng: &mut ChaCha20Rng) {
+    let prep = zcash_pool_migration::preparation::PreparationPlan::from_parts(vec![], vec![]);
+    let mut f = fixtures::synthetic(rng, prep);
+    while f.state.transactions().len() < 2 {
+        let prep = zcash_pool_migration::preparation::PreparationPlan::from_parts(vec![], vec![]);
+        f = fixtures::synthetic(rng, prep);
+    }
+    // (1) a consumer that persists an unchanged Complete state a second time, then a reorg
+    let tip = sql.wallet_tip();
+    let txs: Vec<_> = f
+        .state
+        .transactions()
+        .iter()
+        .enumerate()
+        .map(|(i, t)| {
+            let txid = t.txid();
+            fixtures::rebuild_tx(t, |p| {
+                p.state = MigrationTxState::Mined {
+                    txid,
+                    height: bh(tip - 1 - (i as u32 % 2)),
+                };
+                p.unsatisfiable = None;
+                p.broadcast_failure_at = None;
+            })
+        })
+        .collect();
+    let complete = fixtures::with_txs(&f.state, MigrationStatus::Complete, txs);
+    let _ = sql.wipe_account();
+    let r = (|| -> Result<String, String> {
+        sql.replace(&fixtures::with_status(&complete, MigrationStatus::InProgress))?;
+        sql.replace(&complete)?;
+        let rows1 = sql.row_counts()?.1;
+        sql.replace(&complete)?;
+        let rows2 = sql.row_counts()?.1;
+        let t = sql.wallet_truncate(4);
+        Ok(format!(
+            "rows after first Complete persist {rows1}, after an identical second persist {rows2}; wallet truncate_to_height below the mined heights -> {}",
+            match t {
+                Ok(_) => "ok".to_string(),
+                Err(e) => format!("ERROR {}", e.chars().take(160).collect::<String>()),
+            }
+        ))
+    })();
+    sql.regrow();
+    let _ = sql.wipe_account();
+    match r {
+        Ok(msg) => {
+            if msg.contains("ERROR") {
+                sh.r.count("observation_duplicate_complete_row_breaks_wallet_truncation", 1);
+            }
+            sh.r.note(format!("observation (outside the oracle): replace_migration of an unchanged Complete state: {msg}"));
+        }
+        Err(e) => sh.r.note(format!("observation probe failed: {e}")),
+    }
+    // (2) stale mutator calls outside the drive contract
+    let mut s = complete.clone();
+    let id = s.transactions()[0].id();
+    s.mark_broadcast(id);
+    if !matches!(s.transactions()[0].state(), MigrationTxState::Mined { .. }) {
+        sh.r.count("observation_stale_mark_broadcast_demotes_mined_row", 1);
+        sh.r.note(format!(
+            "observation (outside the drive contract, not judged): mark_broadcast on a Mined row moves it back to {:?} (status stays {:?})",
+            model::RANK_NAMES[model::rank_of(&s.transactions()[0].state()) as usize],
+            s.status()
+        ));
+    }
+}
+
+fn main() {
+    vh_common::install_panic_hook();
+    let args = Args::parse();
+    let r = Reporter::new("C18", &args);
+    let seed = args.shard_seed();
+    let mut rng = vh_common::rng(seed, 18);
+
+    // real commits (expensive: build + pre-sign every PCZT), reused by many traces
+    let n_real = args.get_u64("real-commits", args.pick(2, 5)) as usize;
+    let mut reals: Vec<Fixture> = vec![];
+    let mut plan: Option<MigrationPlan> = None;
+    for k in 0..n_real {
+        let (notes, interval) = fixtures::REAL_SHAPES[(args.shard as usize + k) % fixtures::REAL_SHAPES.len()];
+        match fixtures::real_commit(seed.wrapping_mul(31).wrapping_add(k as u64 + 1), notes, interval) {
+            Ok((f, p)) => {
+                reals.push(f);
+                plan.get_or_insert(p);
+            }
+            Err(e) => panic!("real commit fixture failed: {e}"),
+        }
+    }
+    let plan = plan.expect("at least one real commit");
+    let mut sh = Shared {
+        r,
+        plan,
+        guard_rng: vh_common::rng(seed, 1802),
+    };
+    sh.r.count("real_commits", reals.len() as u64);
+    for f in &reals {
+        sh.r.count("real_commit_transactions", f.state.transactions().len() as u64);
+    }
+
+    let mut sql = SqlEnv::new(SQL_DEPTH as usize);
+    // a second account with its own pending migration: nothing done to the first may touch it
+    let other_state = fixtures::with_status(&reals[0].state, MigrationStatus::Committed);
+    let other = sql.other_account;
+    sql.replace_for(other, &other_state).expect("second account's migration");
+
+    if args.shard == 0 {
+        side_observations(&mut sh, &mut sql, &mut rng);
+    }
+
+    let n_arb = args.get_u64("arb", args.pick(150, 3000)) as u32;
+    arb_roundtrips(&mut sh, &mut sql, seed, n_arb);
+
+    let n_traces = args.get_u64("traces", args.pick(400, 1_000_000));
+    let mut runner = vh_common::proptest_runner(seed, 1803);
+    let prep_strat = arb_preparation_plan();
+    let mut i = 0u64;
+    while i < n_traces && sh.r.time_left() {
+        i += 1;
+        let trace_seed = seed.wrapping_mul(1_000_003).wrapping_add(i);
+        let fixture = if rng.gen_range(0..100) < 22 {
+            let f = reals.choose(&mut rng).unwrap();
+            Fixture {
+                state: f.state.clone(),
+                base: f.base,
+                real: f.real.clone(),
+                label: "real",
+            }
+        } else {
+            let prep = vh_common::draw(&mut runner, &prep_strat).expect("prep plan");
+            fixtures::synthetic(&mut rng, prep)
+        };
+        let flip = *[0u64, 0, 0, 0, 0, 3, 3, 3, 10, 10, 30].choose(&mut rng).unwrap();
+        let world = World::new(trace_seed, fixture.base, flip);
+        let with_sql = rng.gen_range(0..100) < 70;
+        let primary_sql = rng.gen_bool(0.5);
+        let max_events = rng.gen_range(30..100);
+        let _ = sql.wipe_account();
+        {
+            let store = ScriptedStore::new(world, if with_sql { Some(&mut sql) } else { None }, primary_sql);
+            let mut t = Trace {
+                sh: &mut sh,
+                rng: vh_common::rng(trace_seed, 1804),
+                state: fixture.state,
+                store,
+                real: fixture.real,
+                events: 0,
+                label: fixture.label,
+                trace_id: i,
+                cfg: AdvanceConfig::new(ReorgSettleDepth::new(10)),
+                log: vec![],
+                dead_end: false,
+                sql_broken: false,
+            };
+            t.run(max_events);
+        }
+        // the other account's migration is untouched
+        match sql.get_for(other) {
+            Ok(Some(s)) if s == other_state => sh.r.count("other_account_migration_intact", 1),
+            other_res => {
+                sh.r.violation(
+                    "C18:persist:sqlite:other-account-migration-changed",
+                    format!("second account's pending migration changed: {:?}", other_res.map(|o| o.map(|s| snap(&s)))),
+                    json!({"trace": i}),
+                );
+                let _ = sql.replace_for(other, &other_state);
+            }
+        }
+    }
+    sh.r.finish();
 }
